@@ -32,6 +32,31 @@ def valid_files(rng, tier):
     return files
 
 
+def show_file(rng):
+    """a checksummed show with all four object kinds (for the eight loaders)"""
+    from vlib.gen_traj import traj_block, yaw_block
+    from vlib.gen_lights import program
+    from vlib.gen_rth import plan
+    tb, _ = traj_block(rng, nseg=3, scale=10)
+    yb, _ = yaw_block(rng, n=3)
+    rp, _, _ = plan(rng, well_formed=True)
+    return make_file([(1, tb), (2, program(rng)), (5, yb), (4, rp), (3, rand_bytes(rng, 40))], 2, True)
+
+
+def big_file(rng, n):
+    """a valid checksummed file of exactly n bytes (several blocks: a block body is at most 65535 bytes)"""
+    f = bytearray(b"skyb\x02\x01\0\0\0\0")
+    while len(f) < n:
+        room = n - len(f)
+        if room < 3:
+            f += bytes(room)          # trailing zero bytes: a type-0 record header, ends the block list
+            break
+        ln = min(room - 3, 40000)
+        f += bytes([3, ln & 255, ln >> 8]) + rand_bytes(rng, ln)
+    f[6:10] = ap_crc32(f).to_bytes(4, "little")
+    return bytes(f)
+
+
 def generate(rng, tier):
     out = []
     thorough = tier == "thorough"
@@ -49,6 +74,32 @@ def generate(rng, tier):
         b = rand_bytes(rng, n)
         cuts = sorted(rng.randint(0, n) for _ in range(rng.randint(0, 6)))
         out.append((f"crcupd {rng.getrandbits(32)} {hx(b)} " + " ".join(map(str, cuts)), True))
+    # the eight loaders (four object kinds x two routes) must report the corruption too, not only the parser
+    sf = show_file(rng)
+    for kind in "tlyr":
+        out.append((f"load2 {kind} {hx(sf)}", True))
+        for _ in range(12 if thorough else 5):
+            g = bytearray(sf)
+            k = rng.randrange(6, len(g))
+            g[k] ^= 1 << rng.randrange(8)
+            out.append((f"load2 {kind} {hx(g)}", True))
+    # files beyond 64 KiB and 128 KiB: every chunk after the first must be hashed as it is (bytes 6..9 of the file only
+    # are the checksum field), whatever the width of the counters involved
+    for n in ([65545, 65546, 65600, 70000, 131100] if thorough else [65546, 70000, 131100]):
+        bf = big_file(rng, n)
+        out.append((f"facc m {hx(bf)}", True))
+        out.append((f"facc f {hx(bf)}", True))
+        offs = [o for o in (65541, 65542, 65543, 65544, 65545, 65546, 131077, 131078, 131080, 131081, 131082, 256 + 6, 512 + 7, 65536 + 256 + 8) if o < n]
+        offs += [rng.randrange(10, n) for _ in range(3)]
+        for o in offs:
+            g = bytearray(bf)
+            g[o] ^= rng.choice([1, 0x80, 0xff])
+            out.append((f"fcorr {rng.choice('mf')} {hx(g)}", True))
+        if n > 65546:
+            g = bytearray(bf)
+            g[65542:65546] = bytes(x ^ 0x5a for x in g[65542:65546])
+            out.append((f"fcorr m {hx(g)}", True))
+            out.append((f"fcorr f {hx(g)}", True))
     files = valid_files(rng, tier)
     for f in files:
         for route in "mf":
